@@ -6,10 +6,14 @@ EXTENDS CircuitOrder, TLC, Json, IOUtils
 Cases == JsonDeserialize(IOEnv.CASES_FILE)
 VARIABLES tid, verdict
 Abs(c) == [k \in DOMAIN c |-> [id |-> k, wires |-> Range(c[k].modes), marked |-> FALSE]]
+\* dom[j]: the allowed values of parameter j as a sequence of intervals <<lo, hi>> (a point is <<v, v>>); time-domain gates carry
+\* one entry per (argument, time bin)
 InRange(c) == \A k \in DOMAIN c.compiled : \A j \in DOMAIN c.compiled[k].p :
-                 c.compiled[k].lo[j] <= c.compiled[k].p[j] /\ c.compiled[k].p[j] <= c.compiled[k].hi[j]
+                 \E i \in DOMAIN c.compiled[k].dom[j] :
+                    c.compiled[k].dom[j][i][1] <= c.compiled[k].p[j] /\ c.compiled[k].p[j] <= c.compiled[k].dom[j][i][2]
 Verdict(c) ==
-   IF Len(c.compiled) # Len(c.template) THEN "GateCountDiffersFromLayout"
+   IF c.bins > c.maxbins THEN "TooManyTimeBins"
+   ELSE IF Len(c.compiled) # Len(c.template) THEN "GateCountDiffersFromLayout"
    ELSE IF ~(/\ Len(c.perm) = Len(c.template)
              /\ \A k \in DOMAIN c.perm : c.perm[k] \in DOMAIN c.template
              /\ \A k, l \in DOMAIN c.perm : k # l => c.perm[k] # c.perm[l]) THEN "NotAnInstanceOfLayout"
